@@ -4,11 +4,18 @@ _m = importlib.util.module_from_spec(_s); _s.loader.exec_module(_m)
 
 PROP = dict(
     level="other",
-    engine="verus",
+    engine="verus+kani",
     units=["acctstate"],
+    kani=_m.K16,
     explanation="Only helper obligations are discharged; the function that carries the property (TransitionAccount::update, and "
                 "BundleState::apply_transitions_and_create_reverts / to_plain_state around it) is outside the verifier's subset, "
-                "so no proof of the property is claimed. What IS proved (Verus, unbounded, verbatim code): "
+                "so no proof of the property is claimed. BOUNDED STAND-IN for TransitionAccount::update (Kani on the real file, "
+                "kani/kstates/src/c16.rs, 8 instances = the existence patterns before t1 / after t1 / after t2, statuses symbolic "
+                "within the pattern, infos symbolic, storage maps EMPTY): update(t2) == applying t1 then t2 as far as info and "
+                "status go -- previous_info / previous_status from t1, info / status from t2, storage_was_destroyed == flag(t1) || "
+                "flag(t2); reported under bounded_obligations, never counted as proved. The storage merge of update() (present "
+                "from t2, original from t1, entry dropped when back at the original value, t1's slots dropped when t2 destroys) "
+                "is checked by NOTHING: " + _m.KSTATES_COST + " What IS proved (Verus, unbounded, verbatim code): "
                 "TransitionAccount::present_bundle_account == {info: post info, original_info: pre info, storage, status} and "
                 "original_bundle_account == {pre info twice, empty storage, previous_status} (the two bundle accounts a transition "
                 "denotes); new_empty_eip161; previous_balance / current_balance; StorageSlot::{new, new_changed, is_changed, "
@@ -16,12 +23,13 @@ PROP = dict(
                 "increment_balance / drain_balance return previous_* == pre-state and info/status/storage == post-state, so "
                 "consecutive transitions of one account chain (t2.previous == t1.post), which is the precondition under which "
                 "'update == sequential application' is meaningful. " + _m.STATUS_TEXT,
-    level_text="helper contracts only (see explanation); TransitionAccount::update is not verified",
+    level_text="helper contracts only (see explanation); TransitionAccount::update: bounded Kani stand-in for its info / status / wipe-flag part on empty storage maps, its storage merge is not verified",
     level_note=_m.LEFT_OUT + " " + _m.PLUMBING + " No Stage-3 fold lemma is stated for C16: it would have to stand on a contract "
                "of TransitionAccount::update that is not discharged against the code.",
-    technique="Verus contracts on verbatim-extracted helper functions",
-    trusted=_m.ACCT_TRUST,
-    assumptions=["TransitionAccount::update (for-loop over HashMap::into_iter + entry API) is NOT verified: the merge schedule claim rests on it",
+    technique="Verus contracts on verbatim-extracted helper functions; bounded Kani harnesses on the real transition_account.rs",
+    trusted=_m.ACCT_TRUST + _m.KSTATES_TRUST,
+    assumptions=["TransitionAccount::update (for-loop over HashMap::into_iter + entry API) is NOT verified (bounded stand-in on empty storage maps only): the merge schedule claim rests on it",
+                 "domain of the bounded stand-in: t2 is a single-event transition chained to t1 (t2.previous_* == t1 post-state), as State::commit produces them; a CREATE never lands on an account in status Changed (collision rule, C21)",
                  "BundleState::apply_transitions_and_create_reverts / to_plain_state: trusted plumbing"],
     rule="one evaluation per Verus obligation (each a distinct extracted function or lemma)",
 )
